@@ -261,13 +261,13 @@ void reb_integrator_saba_synchronize(struct reb_simulation* const r){
     struct reb_integrator_whfast* const ri_whfast = &(r->ri_whfast);
     struct reb_integrator_saba* const ri_saba = &(r->ri_saba);
     int type = ri_saba->type;
+    if (ri_saba->is_synchronized == 0){
+        const int N = r->N;
         struct reb_particle* sync_pj  = NULL;
         if (ri_saba->keep_unsynchronized){
             sync_pj = malloc(sizeof(struct reb_particle)*r->N);
             memcpy(sync_pj,r->ri_whfast.p_jh,r->N*sizeof(struct reb_particle));
         }
-    if (ri_saba->is_synchronized == 0){
-        const int N = r->N;
         if (type>=0x100){ // correctors on
             // Drift already done, just need corrector
             reb_saba_corrector_step(r, reb_saba_cc[type%0x100]);
